@@ -1041,3 +1041,84 @@ Proof.
   - reflexivity.
   - cbn [local_fs fs_open]. unfold local_open. now rewrite Hs, Hg.
 Qed.
+
+(** * The executable scope check of the oracle accepts the model's listing *)
+Lemma mem_str_In s l : mem_str s l = true <-> In s l.
+Proof.
+  induction l as [|x l IH]; cbn; [split; [discriminate|tauto]|].
+  rewrite orb_true_iff, IH, String.eqb_eq. tauto.
+Qed.
+
+Lemma nodup_str_NoDup l : NoDup l -> nodup_str l = true.
+Proof.
+  induction 1 as [|x l Hx ND IH]; cbn; [reflexivity|]. rewrite IH, andb_true_r.
+  apply negb_true_iff. destruct (mem_str x l) eqn:E; [|reflexivity]. apply mem_str_In in E. contradiction.
+Qed.
+
+Lemma list_eqb_eq a : forall b, list_eqb a b = true <-> a = b.
+Proof.
+  induction a as [|x a IH]; intros [|y b]; cbn; try (split; [discriminate|congruence]); [tauto|].
+  rewrite andb_true_iff, String.eqb_eq, IH. split; [intros [-> ->]; reflexivity|intros H; inversion H; auto].
+Qed.
+
+Lemma is_prefix_app_local p q : is_prefix p (p ++ q) = true.
+Proof. induction p as [|a p IH]; cbn; [reflexivity|]. now rewrite String.eqb_refl. Qed.
+
+Lemma scope_in_scope recursive segs q : scope recursive segs q -> in_scope recursive segs q = true.
+Proof.
+  unfold scope, in_scope. destruct recursive.
+  - intros [suf ->]. apply is_prefix_app_local.
+  - intros [->|[k ->]].
+    + apply orb_true_iff. left. now apply list_eqb_eq.
+    + apply orb_true_iff. right. rewrite removelast_last, is_prefix_app_local.
+      replace (list_eqb segs segs) with true by (symmetry; now apply list_eqb_eq).
+      cbn [andb]. rewrite andb_true_r. apply negb_true_iff.
+      destruct (list_eqb (segs ++ [k]) segs) eqn:E; [|reflexivity].
+      apply list_eqb_eq in E. apply (f_equal (@List.length _)) in E. rewrite app_length in E. cbn in E. lia.
+Qed.
+
+Lemma in_scope_scope recursive segs rel : in_scope recursive segs (segs ++ rel) = true -> scope recursive segs (segs ++ rel).
+Proof.
+  unfold scope, in_scope. destruct recursive; [intros _; now exists rel|].
+  intros H. apply orb_true_iff in H as [H|H].
+  - left. now apply list_eqb_eq.
+  - apply andb_true_iff in H as [H _]. apply andb_true_iff in H as [H1 H2].
+    apply list_eqb_eq in H1. apply negb_true_iff in H2.
+    destruct (exists_last (l := rel)) as (r' & k & ->).
+    { intros ->. rewrite app_nil_r in H2. replace (list_eqb segs segs) with true in H2; [discriminate|].
+      symmetry. now apply list_eqb_eq. }
+    rewrite app_assoc, removelast_last in H1.
+    assert (r' = []) as ->.
+    { apply (f_equal (@List.length _)) in H1. rewrite app_length in H1. destruct r'; [reflexivity|cbn in H1; lia]. }
+    right. now exists k.
+Qed.
+
+Theorem tree_spec_sound X dmeta t writes ep name recursive segs ch :
+  codec_laws X ->
+  (forall p, x_text X (x_mime_ext X p) = x_mime_ext X p) ->
+  (forall q, (fst (dmeta q) < big)%N /\ (snd (dmeta q) < big)%N) ->
+  (forall n, t = Some n -> wf_node n) ->
+  ep <> "" ->
+  local_segs (resolve_href ep name) = Ok segs ->
+  geto t segs = Some (Dir ch) ->
+  tree_spec_ok t ep name recursive (snd (client_readdir X (local_fs X dmeta t writes) ep name recursive)) = true.
+Proof.
+  intros L Hm Hd Wt Hep Hs Hg.
+  destruct (readdir_scope X dmeta t writes ep name recursive segs ch L Hm Hd Wt Hs Hg) as (l & E & ND & Snd & Cpl).
+  rewrite E. cbn [snd]. unfold tree_spec_ok. rewrite <- (resolve_is_target ep name Hep), Hs, Hg.
+  rewrite (nodup_str_NoDup _ ND). cbn [andb].
+  rewrite !andb_true_iff. repeat split.
+  - apply forallb_forall. intros e He. destruct (Snd e He) as (q & n & P & _ & Ls & G & _ & K).
+    unfold entry_ok. rewrite Ls, G. rewrite P at 1. rewrite String.eqb_refl. cbn [andb].
+    destruct n as [c m|ch']; [destruct K as (K1 & K2 & _); rewrite K1, K2, N.eqb_refl; reflexivity|exact K].
+  - apply forallb_forall. intros e He. destruct (Snd e He) as (q & n & _ & _ & Ls & _ & Sc & _).
+    rewrite Ls. now apply scope_in_scope.
+  - apply forallb_forall. intros q Hq. rewrite in_map_iff in Hq. destruct Hq as [rel [<- Hrel]].
+    unfold all_paths in Hrel. rewrite in_map_iff in Hrel. destruct Hrel as [[rel' n'] [Er Hin]]. cbn [fst] in Er. subst rel'.
+    destruct (in_scope recursive segs (segs ++ rel)) eqn:Sc; [|reflexivity]. cbn [negb orb].
+    apply mem_str_In. apply in_scope_scope in Sc.
+    assert (Wd : wf_node (Dir ch)).
+    { destruct t as [n0|] eqn:T; [|now rewrite geto_None_local in Hg]. apply (wf_geto n0 segs (Dir ch) (Wt n0 eq_refl) Hg). }
+    destruct (walk_sound _ _ _ _ Wd Hin) as (suf & Es & G & _ & _). cbn [app] in Es. subst suf.
+    apply (Cpl (segs ++ rel) n'); [|exact Sc]. now rewrite geto_app_local, Hg.
+Qed.
